@@ -144,10 +144,11 @@ class CategoricalImporter:
 
         self.field = df.create_categorical(name, value_type, categories, timestamp, None)
         self.byte_map = ops.get_byte_map(categories)
+        self.value_type = value_type
         self.field_size = max([len(k) for k in categories])
 
     def import_part(self, column_inds, column_vals, column_offsets, col_idx, written_row_count):
-        chunk = np.zeros(written_row_count, dtype=np.uint8)
+        chunk = np.zeros(written_row_count, dtype=self.value_type)
         cat_keys, cat_index, cat_values = self.byte_map
                 
         ops.categorical_transform(chunk, col_idx, column_inds, column_vals, column_offsets, cat_keys, cat_index, cat_values)
@@ -171,6 +172,7 @@ class LeakyCategoricalImporter:
     def __init__(self, session, df:DataFrame, name:str, categories:Mapping[str, str],
                        value_type:str='int8', timestamp=None):
         self.byte_map = ops.get_byte_map(categories)
+        self.value_type = value_type
         self.freetext_index_accumulated = 0
         self.field = df.create_categorical(name, value_type, categories, timestamp, None)
         self.other_values_field = df.create_indexed_string(f"{name}_freetext", timestamp, None)
@@ -179,7 +181,7 @@ class LeakyCategoricalImporter:
 
     def import_part(self, column_inds, column_vals, column_offsets, col_idx, written_row_count):
         cat_keys, cat_index, cat_values = self.byte_map
-        chunk = np.zeros(written_row_count, dtype=np.int8) # use np.int8 instead of np.uint8, as we set -1 for leaky key
+        chunk = np.zeros(written_row_count, dtype=self.value_type) # signed, as we set -1 for leaky key
         freetext_indices_chunk = np.zeros(written_row_count + 1, dtype = np.int64)
 
         col_count = column_offsets[col_idx + 1] - column_offsets[col_idx]
